@@ -64,11 +64,11 @@ CHECKS = {
     "C10": dict(
         technique="property-based testing: molecules x atom-spelling variants x tables; oracles = decode-does-not-raise, metamorphic same-molecule-same-symbols, fixpoint of encoder o decoder",
         level="exploration",
-        text="Encoder output must be well formed, decodable under the same table, identical for spellings that differ only in atom spelling, and reproduced by re-encoding the decoded SMILES.",
+        text="Encoder output must be well formed, decodable under the same table, identical for spellings that differ only in atom spelling, and reproduced by re-encoding the decoded SMILES; also for accepted SMILES-like text without ground truth, an enumerated ladder of ring spans / branch lengths around the index-symbol boundaries and nesting depths up to 670.",
         note="Trusted: R3 writer emits the variant pairs with all other choices fixed.",
         ref="6/C10"),
     "C11": dict(
-        technique="stateful property-based testing (Hypothesis rule-based state machine) against the reference derivation and fresh-interpreter subprocesses with other hash seeds",
+        technique="stateful property-based testing (Hypothesis rule-based state machine) against the reference derivation and fresh-interpreter subprocesses with other hash seeds (decoder, compatible decoder, strict and non-strict encoder)",
         level="exploration",
         text="Generated call histories (table switches, rejected updates, cache-filling translations, caller-side mutation) ending in translation calls whose results must equal R2 under the model table and the answers of fresh interpreters.",
         note="Trusted: R2, model of the table; fresh-interpreter answers come from subprocesses of the same tree.",
@@ -100,7 +100,7 @@ CHECKS = {
     "C16": dict(
         technique="exhaustive enumeration of n < 16^3 and all symbol triples + property-based sampling; oracle = positional arithmetic over the documented table",
         level="exploration",
-        text="Function level enumerated completely (finite), API level (decoder ring/branch placement, encoder digits) sampled in quick and enumerated for all n < 16^3 in thorough.",
+        text="Function level enumerated completely (finite) plus n around 16^k up to 16^69 in a memory/time-limited subprocess, API level (decoder ring/branch placement, encoder digits, non-index symbols at digit positions) sampled in quick and enumerated for all n < 16^3 in thorough.",
         note="Trusted: documented index table, R1 for reading ring/branch placement.",
         ref="6/C16"),
     "C17": dict(
@@ -116,9 +116,9 @@ CHECKS = {
         note="Trusted: the legacy->modern map of CHANGELOG.md as encoded in vf/props/c18.py, R2 for 'reached'.",
         ref="6/C18"),
     "C19": dict(
-        technique="schedule fuzzing: generated opcode-level thread schedules run by a deterministic scheduler (sys.settrace) + free-running stress + cold-start subprocesses; oracle = results of the same calls run alone",
+        technique="schedule fuzzing: generated opcode-level thread schedules run by a deterministic scheduler (sys.settrace) + free-running stress and cold-start subprocesses; oracle = results of the same calls run alone, plus progress-based detection of calls that wait for ever",
         level="exploration",
-        text="2-4 concurrent encoder/decoder jobs under generated interleavings at bytecode granularity inside selfies frames (incl. jobs that meet never-seen symbols and never-requested ring sizes inside the interleaving), free-running stress threads, and cold-start runs (fresh interpreters whose first calls are made by several threads at once); every job's result must equal its serial result, the documented index code, and a serial run in another process.",
+        text="2-4 concurrent encoder/decoder jobs under generated interleavings at bytecode granularity inside selfies frames (incl. jobs that meet never-seen symbols and never-requested ring sizes inside the interleaving), free-running stress threads, and cold-start runs (fresh interpreters whose first calls are made by several threads at once); every job's result must equal its serial result, the documented index code, and a serial run in another process; threads that stop making progress (no opcode for 30 s / no completed call for 45 s) are a violation.",
         note="Switches are forced only at opcode boundaries of frames under /repo/selfies; C internals assumed atomic under the GIL.",
         ref="6/C19"),
 }
